@@ -1,5 +1,5 @@
 """C05 — output always well-formed; safe APIs never leave an invalid str or String (structural clauses)."""
-import r_strsafe, r_writers, r_handle, r_inv, r_utf8store, r_boundary
+import r_strsafe, r_writers, r_handle, r_inv, r_utf8store, r_boundary, r_kernel
 import p_c10
 
 MANIFEST = {
@@ -31,6 +31,10 @@ CONFIGS = {'quick': ['default', 'simd'], 'thorough': ['default', 'simd', 'noallo
 def run(rep, facts, tier):
     for c, f in facts.items():
         r_strsafe.scrub(rep, f, c, 'R-STRSAFE.scrub')
+        if c.startswith('simd'):
+            # the scrub length (one stride) is sufficient only if the stride kernels store no more than the sub-stride holding the
+            # offending unit beyond what they report: R-STRIDE.excess (with the other stride-level obligations)
+            r_kernel.stride_level(rep, f, c, 'R-STRIDE')
         if c != 'noalloc':
             r_strsafe.set_len(rep, f, c, 'R-STRSAFE.set_len')
             r_strsafe.unchecked_str(rep, f, c, 'R-STRSAFE.unchecked')
